@@ -118,4 +118,158 @@ theorem registry_src_duplicate_name (id n : Int) :
   all_goals intro h
   all_goals simp [BTerm.eval, ITerm.eval, rhoAg, Obs.eval, Obs.evalList] at h ⊢
 
+/-! ### `_add_market` and `_add_session`
+
+Setting: the simulator (address 4) holds two markets (ids 1 and 2, names "m1", "m2", addresses 31, 32; group "G" =
+[31]) and two sessions (ids 1, 2, names "s1", "s2", addresses 41, 42); the new market is at address 33 and the
+new session at 43 (id = int atom 1, name = shape). -/
+
+def regSim2 : String → Option Val
+  | "__class__" => some (.str "Simulator")
+  | "markets" => some (.list [.ref 31, .ref 32])
+  | "n_markets" => some (.int (.atom 9))
+  | "id2market" => some (.dict [.int (.lit 1), .int (.lit 2)] [.ref 31, .ref 32])
+  | "name2market" => some (.dict [.str "m1", .str "m2"] [.ref 31, .ref 32])
+  | "markets_group_name2market" => some (.dict [.str "G"] [.list [.ref 31]])
+  | "sessions" => some (.list [.ref 41, .ref 42])
+  | "n_sessions" => some (.int (.atom 9))
+  | "id2session" => some (.dict [.int (.lit 1), .int (.lit 2)] [.ref 41, .ref 42])
+  | "name2session" => some (.dict [.str "s1", .str "s2"] [.ref 41, .ref 42])
+  | _ => none
+
+def regMarket (name : String) : String → Option Val
+  | "__class__" => some (.str "Market")
+  | "market_id" => some (.int (.atom 1))
+  | "name" => some (.str name)
+  | _ => none
+
+def regSession (name : String) : String → Option Val
+  | "__class__" => some (.str "Session")
+  | "session_id" => some (.int (.atom 1))
+  | "name" => some (.str name)
+  | _ => none
+
+def mkSt (name : String) : St :=
+  { heap := fun a => if a = 4 then regSim2 else if a = 33 then regMarket name else if a = 43 then regSession name
+                     else fun _ => none, calls := [] }
+
+def listO4 (st : St) (f : String) : Obs :=
+  match st.heap 4 f with
+  | some (.list l) => .tuple (l.map Obs.ofVal)
+  | some (.dict ks vs) => .tuple [.tuple (ks.map Obs.ofVal), .tuple (vs.map (fun v => match v with
+      | .list l => .tuple (l.map Obs.ofVal) | w => Obs.ofVal w))]
+  | _ => .absent
+
+/-- the market registry afterwards -/
+def mkObs : Except Py.Err (Val × St) → Obs
+  | .ok (_, st) => .tuple [listO4 st "markets", Obs.ofOpt (st.heap 4 "n_markets"), listO4 st "id2market",
+                           listO4 st "name2market", listO4 st "markets_group_name2market"]
+  | .error e => .err e
+
+/-- the session registry afterwards -/
+def seObs : Except Py.Err (Val × St) → Obs
+  | .ok (_, st) => .tuple [listO4 st "sessions", Obs.ofOpt (st.heap 4 "n_sessions"), listO4 st "id2session",
+                           listO4 st "name2session"]
+  | .error e => .err e
+
+def mkPaths (name : String) (who : Nat) (group : Val) :=
+  obsPathsPG mkObs agEnv FUEL "Simulator._add_market" [.ref 4, .ref who, group] (mkSt name)
+
+def sePaths (name : String) (who : Nat) :=
+  obsPathsPG seObs agEnv FUEL "Simulator._add_session" [.ref 4, .ref who] (mkSt name)
+
+theorem mkP_G : mkPaths "m3" 33 (.str "G") = evalnf% (mkPaths "m3" 33 (.str "G")) := by kernel_rfl
+theorem mkP_H : mkPaths "m3" 33 (.str "H") = evalnf% (mkPaths "m3" 33 (.str "H")) := by kernel_rfl
+theorem mkP_none : mkPaths "m3" 33 .none = evalnf% (mkPaths "m3" 33 .none) := by kernel_rfl
+theorem mkP_name : mkPaths "m2" 33 .none = evalnf% (mkPaths "m2" 33 .none) := by kernel_rfl
+theorem mkP_twice : mkPaths "m3" 31 .none = evalnf% (mkPaths "m3" 31 .none) := by kernel_rfl
+theorem seP_new : sePaths "s3" 43 = evalnf% (sePaths "s3" 43) := by kernel_rfl
+theorem seP_name : sePaths "s1" 43 = evalnf% (sePaths "s1" 43) := by kernel_rfl
+theorem seP_twice : sePaths "s3" 42 = evalnf% (sePaths "s3" 42) := by kernel_rfl
+
+def mkExpected (id n : Int) (groups : CObs K) : CObs K :=
+  .tuple [.tuple [.ref 31, .ref 32, .ref 33], .int (n + 1),
+          .tuple [.tuple [.int 1, .int 2, .int id], .tuple [.ref 31, .ref 32, .ref 33]],
+          .tuple [.tuple [.str "m1", .str "m2", .str "m3"], .tuple [.ref 31, .ref 32, .ref 33]], groups]
+
+/-- **`_add_market`**: an id already in use is refused; otherwise the market is appended, counted, indexed by id and
+name and added to its group (created if new; no group if `None`) — for every id value -/
+theorem registry_src_add_market (id n : Int) :
+    resultG mkObs (rhoAg (K := K) id n) agEnv FUEL "Simulator._add_market" [.ref 4, .ref 33, .str "G"] (mkSt "m3")
+      = (if id = 1 ∨ id = 2 then .err (.raise "ValueError") else
+          mkExpected id n (.tuple [.tuple [.str "G"], .tuple [.tuple [.ref 31, .ref 33]]])) ∧
+    resultG mkObs (rhoAg (K := K) id n) agEnv FUEL "Simulator._add_market" [.ref 4, .ref 33, .str "H"] (mkSt "m3")
+      = (if id = 1 ∨ id = 2 then .err (.raise "ValueError") else
+          mkExpected id n (.tuple [.tuple [.str "G", .str "H"], .tuple [.tuple [.ref 31], .tuple [.ref 33]]])) ∧
+    resultG mkObs (rhoAg (K := K) id n) agEnv FUEL "Simulator._add_market" [.ref 4, .ref 33, .none] (mkSt "m3")
+      = (if id = 1 ∨ id = 2 then .err (.raise "ValueError") else
+          mkExpected id n (.tuple [.tuple [.str "G"], .tuple [.tuple [.ref 31]]])) := by
+  refine ⟨?_, ?_, ?_⟩
+  · apply resultG_eq_of_pathsP (by intro x; simp)
+    show ∀ p ∈ mkPaths "m3" 33 (.str "G"), _
+    py_paths mkP_G
+    all_goals intro h
+    all_goals simp [BTerm.eval, ITerm.eval, rhoAg, Obs.eval, Obs.evalList, mkExpected] at h ⊢
+    all_goals simp_all
+  · apply resultG_eq_of_pathsP (by intro x; simp)
+    show ∀ p ∈ mkPaths "m3" 33 (.str "H"), _
+    py_paths mkP_H
+    all_goals intro h
+    all_goals simp [BTerm.eval, ITerm.eval, rhoAg, Obs.eval, Obs.evalList, mkExpected] at h ⊢
+    all_goals simp_all
+  · apply resultG_eq_of_pathsP (by intro x; simp)
+    show ∀ p ∈ mkPaths "m3" 33 .none, _
+    py_paths mkP_none
+    all_goals intro h
+    all_goals simp [BTerm.eval, ITerm.eval, rhoAg, Obs.eval, Obs.evalList, mkExpected] at h ⊢
+    all_goals simp_all
+
+/-- a market name already in use, or a market object already registered, is refused whatever the id -/
+theorem registry_src_market_refusals (id n : Int) :
+    resultG mkObs (rhoAg (K := K) id n) agEnv FUEL "Simulator._add_market" [.ref 4, .ref 33, .none] (mkSt "m2")
+      = .err (.raise "ValueError") ∧
+    resultG mkObs (rhoAg (K := K) id n) agEnv FUEL "Simulator._add_market" [.ref 4, .ref 31, .none] (mkSt "m3")
+      = .err (.raise "ValueError") := by
+  refine ⟨?_, ?_⟩
+  · apply resultG_eq_of_pathsP (by intro x; simp)
+    show ∀ p ∈ mkPaths "m2" 33 .none, _
+    py_paths mkP_name
+    all_goals intro h
+    all_goals simp [BTerm.eval, ITerm.eval, rhoAg, Obs.eval, Obs.evalList] at h ⊢
+  · apply resultG_eq_of_pathsP (by intro x; simp)
+    show ∀ p ∈ mkPaths "m3" 31 .none, _
+    py_paths mkP_twice
+    all_goals intro h
+    all_goals simp [BTerm.eval, ITerm.eval, rhoAg, Obs.eval, Obs.evalList] at h ⊢
+
+/-- **`_add_session`**: an id or a name already in use, or a session already registered, is refused; otherwise the
+session is appended, counted and indexed by id and name — for every id value -/
+theorem registry_src_add_session (id n : Int) :
+    resultG seObs (rhoAg (K := K) id n) agEnv FUEL "Simulator._add_session" [.ref 4, .ref 43] (mkSt "s3")
+      = (if id = 1 ∨ id = 2 then .err (.raise "ValueError") else
+          .tuple [.tuple [.ref 41, .ref 42, .ref 43], .int (n + 1),
+                  .tuple [.tuple [.int 1, .int 2, .int id], .tuple [.ref 41, .ref 42, .ref 43]],
+                  .tuple [.tuple [.str "s1", .str "s2", .str "s3"], .tuple [.ref 41, .ref 42, .ref 43]]]) ∧
+    resultG seObs (rhoAg (K := K) id n) agEnv FUEL "Simulator._add_session" [.ref 4, .ref 43] (mkSt "s1")
+      = .err (.raise "ValueError") ∧
+    resultG seObs (rhoAg (K := K) id n) agEnv FUEL "Simulator._add_session" [.ref 4, .ref 42] (mkSt "s3")
+      = .err (.raise "ValueError") := by
+  refine ⟨?_, ?_, ?_⟩
+  · apply resultG_eq_of_pathsP (by intro x; simp)
+    show ∀ p ∈ sePaths "s3" 43, _
+    py_paths seP_new
+    all_goals intro h
+    all_goals simp [BTerm.eval, ITerm.eval, rhoAg, Obs.eval, Obs.evalList] at h ⊢
+    all_goals simp_all
+  · apply resultG_eq_of_pathsP (by intro x; simp)
+    show ∀ p ∈ sePaths "s1" 43, _
+    py_paths seP_name
+    all_goals intro h
+    all_goals simp [BTerm.eval, ITerm.eval, rhoAg, Obs.eval, Obs.evalList] at h ⊢
+  · apply resultG_eq_of_pathsP (by intro x; simp)
+    show ∀ p ∈ sePaths "s3" 42, _
+    py_paths seP_twice
+    all_goals intro h
+    all_goals simp [BTerm.eval, ITerm.eval, rhoAg, Obs.eval, Obs.evalList] at h ⊢
+
 end Pams.Src
